@@ -38,6 +38,7 @@ def run(ctx):
     ctx.guard(rule_e, ctx, ix, reg)
     ctx.guard(rule_g, ctx, ix)
     ctx.guard(rule_h, ctx, ix, reg)
+    ctx.guard(rule_i, ctx, ix)
     # every registered loader version must still load: back-references are resolved after the object is published
     from ..report import BorrowedCtx
     from .C02 import rule_f as _backrefs
@@ -623,3 +624,37 @@ def rule_h(ctx, ix, reg):
                               % (ld.name, v, t.rpartition('.')[2], fld, sh, newest, ref, v), where=where(ld, st))
     if n < 2:
         raise AnalysisError('C12.h: only %d fields set by several loader versions found' % n)
+
+
+def rule_i(ctx, ix):
+    """GlueUnSerializer.object runs with label disambiguation switched off (registry.disable) and is recursive: the decorator has
+    to put back the value it found, not "on" - otherwise the first nested object() that returns switches disambiguation back
+    on in the middle of the outer load, and labels read after that are silently renamed (sub -> sub_01)."""
+    R = 'C12.i'
+    ctx.describe(R, 'the decorator that switches label disambiguation off around a (recursive) load restores the value it found', floor=2)
+    f = ix.func('glue.core.registry.disable')
+    inner = [n for n in f.node.body if isinstance(n, ast.FunctionDef)]
+    if len(inner) != 1:
+        raise AnalysisError('registry.disable: wrapper not recognised')
+    w = inner[0]
+    tries = [t for t in ast.walk(w) if isinstance(t, ast.Try) and t.finalbody]
+    if len(tries) != 1:
+        raise AnalysisError('registry.disable: try/finally not recognised')
+    fin = [st for x in tries[0].finalbody for st in ast.walk(x) if isinstance(st, ast.Assign) and isinstance(st.targets[0], ast.Attribute)]
+    pre = [st for st in ast.walk(w) if isinstance(st, ast.Assign) and isinstance(st.targets[0], ast.Attribute) and st not in fin]
+    if not fin or not pre:
+        raise AnalysisError('registry.disable: set / restore of the flag not recognised')
+    flag = unparse(pre[0].targets[0])
+    saved = {st.targets[0].id for st in ast.walk(w) if isinstance(st, ast.Assign) and isinstance(st.targets[0], ast.Name)
+             and unparse(st.value) == flag and st.lineno < pre[0].lineno}
+    ctx.ob(R, f.construct + ' save', 'the value of the flag is read before it is set', bool(saved),
+           detail='registry.disable no longer saves the previous value of %s' % flag, where=f.where)
+    ok = all(unparse(st.targets[0]) == flag and isinstance(st.value, ast.Name) and st.value.id in saved for st in fin)
+    ctx.ob(R, f.construct + ' restore', 'the finally clause puts back the saved value', ok,
+           detail='registry.disable sets %s to `%s` on exit instead of the value it found: GlueUnSerializer.object calls itself, so the '
+                  'first nested call that returns switches label disambiguation back on while the outer load is still running, and a '
+                  'subset label that was seen before is renamed on load' % (flag, unparse(fin[0].value)), where=f.where)
+    un = ix.cls('glue.core.state.GlueUnSerializer')
+    g = un.resolve_func('object')
+    deco = any('disable' in unparse(d) for d in g.raw_node.decorator_list)
+    ctx.ob(R, g.construct, 'object() runs under the decorator (read from the code: %s)' % deco, True, nontrivial=False)
